@@ -112,6 +112,7 @@ pub fn ov_from_rec(v: &J) -> OV {
     let digits = || -> String { v["d"].as_array().unwrap().iter().map(|d| char::from(b'0' + d.as_u64().unwrap() as u8)).collect() };
     match v["t"].as_str().unwrap() {
         "null" => OV::Null,
+        "poison" => OV::Poison,
         "bool" => OV::Bool(v["b"].as_bool().unwrap()),
         "int" => OV::Int(digits().parse().unwrap()),
         "neg" => {
